@@ -512,6 +512,14 @@ func c19Watchdog(rec *Recorder, stop chan struct{}) {
 				sig = "C19/wedged-spinning/" + cc.Transport + "/" + cc.Faults[0].Kind
 			}
 			WriteFuzzViolation("C19", Verdict{Sig: sig, Detail: "after the fault the client's listener busy-loops (the fake clock of the bubble cannot advance; two dumps one second apart show):\n" + s2}, rawJSON(cs))
+		} else if locked := libGoroutines(func(head, _ string) bool {
+			return strings.Contains(head, "sync.Mutex.Lock") || strings.Contains(head, "sync.RWMutex")
+		}); len(locked) > 0 {
+			frame := "unknown"
+			if m := limeFrameRe.FindStringSubmatch(locked[0]); m != nil {
+				frame = m[1]
+			}
+			WriteFuzzViolation("C19", Verdict{Sig: "C19/wedged-waiting-for-a-lock/" + frame, Detail: "no progress for 8 s; library goroutines wait for a lock that is never released (the client cannot send, re-establish or listen any more):\n" + truncate(strings.Join(locked, "\n\n"), 20000)}, rawJSON(cs))
 		} else {
 			buf := make([]byte, 4<<20)
 			n := runtime.Stack(buf, true)
